@@ -56,6 +56,7 @@ class SubcircuitExpander(Visitor):
     def __init__(self, prepare_def, measure_def):
         self.prepare_def = prepare_def
         self.measure_def = measure_def
+        self.new_macros = {}
 
     def visit_default(self, obj):
         """By default we leave all objects alone. Note that the object is not copied."""
@@ -63,6 +64,9 @@ class SubcircuitExpander(Visitor):
 
     def visit_Circuit(self, circuit):
         new_circuit = Circuit(native_gates=circuit.native_gates)
+        # Filled in definition order, so that calls of earlier macros can
+        # be linked to their new definitions.
+        self.new_macros = new_circuit.macros
         for name, macro in circuit.macros.items():
             new_circuit.macros[name] = self.visit(macro)
         new_circuit.constants.update(circuit.constants)
@@ -73,6 +77,14 @@ class SubcircuitExpander(Visitor):
 
     def visit_Macro(self, macro):
         return Macro(macro.name, macro.parameters, self.visit(macro.body))
+
+    def visit_GateStatement(self, gate):
+        """A call of a macro is linked to the macro's new definition; its
+        old definition still contains the subcircuit blocks."""
+        new_def = self.new_macros.get(gate.name)
+        if new_def is not None and isinstance(gate.gate_def, Macro):
+            return new_def(*gate.parameters.values())
+        return gate
 
     def visit_LoopStatement(self, loop):
         return LoopStatement(loop.iterations, self.visit(loop.statements))
